@@ -224,25 +224,38 @@ SIG_THEOREMS = ["gen_is_wildcard_eq", "gen_parse_number_in_range_eq", "gen_parse
                 "C10_translated_tcp_ranges", "C09_translated_sig_roundtrip", "C18_translated_layout", "C18_translated_quirks", "C10_translated_mtu_range"]
 
 
-def gen_tie_single(tag, translator, generated, proofs, theorems, model_files):
+def gen_tie_single(tag, translator, generated, proofs, theorems, model_files, pre=()):
     """One translator -> one generated file -> proof files.  Cached on the generated text, the proof files and the model files;
-    failures are recomputed on every run; the compile step is serialised by a lock."""
+    failures are recomputed on every run; the compile step is serialised by a lock.
+    pre = [(translator, generated file, proof file)...]: translations this one builds on; they are regenerated from the SAME source
+    under the same lock and compiled first (their own theorems are counted by their own tie)."""
     WORK.mkdir(exist_ok=True)
     (WORK / "gen_tie_cache").mkdir(exist_ok=True)
     res = {"ok": False, "obligations": len(theorems), "discharged": 0, "theorems": theorems, "detail": ""}
     lock = open(WORK / "gen_tie.lock", "w")
     fcntl.flock(lock, fcntl.LOCK_EX)
     try:
+        for ptr, pgen, _ in pre:
+            rc, out = sh("%s %s %s %s" % (PY, VERIF / "translate" / ptr, REPO, COQ / "Gen" / pgen), 120)
+            if rc != 0:
+                res["detail"] = "builds on translate/%s, which refuses the source: %s" % (ptr, out.strip()[-300:])
+                return res
         rc, out = sh("%s %s %s %s" % (PY, VERIF / "translate" / translator, REPO, COQ / "Gen" / generated), 120)
         if rc != 0:
             res["detail"] = "translator: " + out.strip()[-400:]
             return res
         h = hashlib.sha1()
-        for f in [COQ / "Gen" / generated] + [COQ / "Gen" / pf for pf in proofs] + [COQ / f for f in model_files] + [VERIF / "translate" / translator]:
+        for f in [COQ / "Gen" / generated] + [COQ / "Gen" / pf for pf in proofs] + [COQ / f for f in model_files] + [VERIF / "translate" / translator] \
+                + [COQ / "Gen" / x for _, pgen, ppf in pre for x in (pgen, ppf)] + [VERIF / "translate" / ptr for ptr, _, _ in pre]:
             h.update(f.read_bytes() if f.exists() else b"<missing>")
         cache = WORK / "gen_tie_cache" / ("%s-%s.json" % (tag, h.hexdigest()))
         if cache.exists():
             return json.load(open(cache))
+        if pre:
+            rc, out = sh(" && ".join("timeout 1200 coqc -Q . PV Gen/%s" % f for _, pgen, ppf in pre for f in (pgen, ppf)), 3900, cwd=COQ)
+            if rc != 0:
+                res["detail"] = "builds on Gen/%s, which no longer checks: %s" % (pre[0][2], out.strip()[-400:])
+                return res
         rc, out = sh(" && ".join("timeout 1200 coqc -Q . PV Gen/%s" % f for f in [generated] + proofs), 3900, cwd=COQ)
         if rc == 0 and out.count("Closed under the global context") == len(theorems):
             res["ok"] = True
@@ -269,6 +282,22 @@ def gen_tie_sig():
     return gen_tie_single("sig", "sig2coq.py", "GeneratedSig.v", ["GenSigP.v", "GenSigC.v"], SIG_THEOREMS,
                           ["Model/Text.v", "Model/SigParse.v", "Model/Sig.v", "Model/Bits.v", "Model/Dump.v", "Model/Matcher.v", "Spec/C01.v", "Proofs/DbParseP.v", "Proofs/DumpP.v", "Proofs/SigTextP.v",
                            "Proofs/TextP.v", "Proofs/BitsP.v"])
+
+
+FILE_THEOREMS = ["gen_Label_parse_eq", "gen_Label_dump_eq", "gen_dump_eq", "gen_parse_section_eq", "gen_parsing_error_wrapper_eq", "gen_db_create_sim", "gen_db_add_sim",
+                 "gen_step_g_sim", "gen_step_eq_variant", "gen_step_leading_nl", "gen_step_g_unterminated", "gen_run_eq_variant", "gen_run_g_sim", "gen_run_file_lines_eq",
+                 "gen_parse_text_eq", "C09_translated_file", "C09_translated_file_text", "C10_translated_file", "C10_translated_file_text", "C10_translated_file_line",
+                 "C15_translated_file"]
+
+
+def gen_tie_file():
+    """database/parse/parser.py (the line loop of _parse_file as a step function, _parse_section), labels/*.py, records/*.py, records_database.py
+    (create / add over a dictionary model) -> Gallina (translate/file2coq.py + db2coq.py), proved to simulate Model/DbParse.v's step / run / parse_text
+    (coq/Gen/GenFileP.v), corollaries for C09 / C10 / C15 in coq/Gen/GenFileC.v.  Builds on the signature-text translation (sig2coq)."""
+    return gen_tie_single("file", "file2coq.py", "GeneratedFile.v", ["GenFileP.v", "GenFileC.v"], FILE_THEOREMS,
+                          ["Model/Text.v", "Model/SigParse.v", "Model/DbParse.v", "Model/Sig.v", "Model/Bits.v", "Model/Dump.v", "Spec/C01.v", "Spec/C09.v", "Proofs/DbParseP.v",
+                           "Proofs/TextP.v", "Proofs/LabelsP.v", "../translate/db2coq.py", "../translate/sig2coq.py"],
+                          pre=[("sig2coq.py", "GeneratedSig.v", "GenSigP.v")])
 
 
 # --------------------------------------------------------------------------- model side
@@ -401,6 +430,8 @@ def run_check(prop, tier, replay=None):
                 ties.append(("Gen/GenImpP.v:", "Gen/GenImpP.v", " && translate/imp2coq.py /repo coq/Gen/GeneratedImp.v && coqc Gen/GeneratedImp.v Gen/GenImpP.v Gen/GenImpC.v", gen_tie_imp()))
             if "sig" in spec:
                 ties.append(("Gen/GenSigP.v:", "Gen/GenSigP.v", " && translate/sig2coq.py /repo coq/Gen/GeneratedSig.v && coqc Gen/GeneratedSig.v Gen/GenSigP.v Gen/GenSigC.v", gen_tie_sig()))
+            if "file" in spec:
+                ties.append(("Gen/GenFileP.v:", "Gen/GenFileP.v", " && translate/file2coq.py /repo coq/Gen/GeneratedFile.v && coqc Gen/GeneratedFile.v Gen/GenFileP.v Gen/GenFileC.v", gen_tie_file()))
             proof["gen_tie"] = {}
             for prefix, where, cmd, g in ties:
                 proof["obligations"] += g["obligations"]
@@ -592,6 +623,10 @@ def run_check(prop, tier, replay=None):
         if "sig" in spec:
             tb.append("translator translate/sig2coq.py (database/parse/utils.py, wildcard.py, signatures/tcp.py, signatures/mtu.py -> text/res monad): its reading of the subset, "
                       "int() = py_int, str methods = Model/Text.v list functions, module tables by evaluation; Gen/GenSigP.v + GenSigC.v re-checked on every run")
+        if "file" in spec:
+            tb.append("translator translate/file2coq.py + db2coq.py (parser.py's line loop / _parse_section, labels/*.py, records/*.py, records_database.py create/add -> step function over "
+                      "a generated state): its reading of the subset; ASSUMED: HTTPSignature.parse = the model's parse_http_sig, a dict = insertion-ordered association list, "
+                      "`label.sys = ..` as a functional update (no record holds that label yet), class / enum tables by name; Gen/GenFileP.v + GenFileC.v re-checked on every run")
     tb += getattr(mod, "TRUSTED", [])
     ev["coverage"] = {
         "obligations": proof["obligations"], "discharged": proof["discharged"],
